@@ -218,7 +218,10 @@ def check(ctx):
             par = parent(c)
             if isinstance(par, ast.IfExp) and isinstance(par.test, ast.Compare) and isinstance(const_value(par.test.comparators[0]), str):
                 lit = const_value(par.test.comparators[0])
-                if c is par.body:
+                eq_arm = par.body if isinstance(par.test.ops[0], ast.Eq) else par.orelse if isinstance(par.test.ops[0], ast.NotEq) else None
+                if eq_arm is None:
+                    ok = any(tok_spelling[t] == want_sp for t in toks)
+                elif c is eq_arm:
                     ok = lit == want_sp
                 else:
                     others = {tok_spelling[t] for t in toks} - {lit}
@@ -453,7 +456,8 @@ def _target_ctx_ok(ctx, g, asdl, fn, cfg, fdefs, ctor, target, prods, kind):
     # (3) the value comes from a child production whose action applies the setter: p[i]
     t = df.resolve_copy(fdefs, target)
     if isinstance(t, ast.IfExp):
-        t = t.body
+        arms = [a_ for a_ in (t.body, t.orelse) if not (isinstance(a_, ast.Constant) and a_.value is None)]
+        t = arms[0] if len(arms) == 1 else t
     idx = None
     if isinstance(t, ast.Subscript) and unparse(t.value) == "p" and isinstance(const_value(t.slice), int):
         idx = const_value(t.slice)
